@@ -6,7 +6,11 @@ EXTENDS ReadConn
 
 CONSTANTS MaxFrames, MaxBody, MaxExtra
 
-FrameD == {f \in [lead : 0..1, body : 1..MaxBody, trail : 0..1, ok : BOOLEAN] : f.ok => f.body >= 2}
+\* body = 0: a blank frame (whitespace only, at least one byte)
+FrameD == {f \in [lead : 0..1, body : 0..MaxBody, trail : 0..1, ok : BOOLEAN] :
+              /\ f.ok => f.body >= 2
+              /\ f.body = 0 => f.lead = 1}
+Cls(f) == IF f.body = 0 THEN "blank" ELSE IF f.ok THEN "ok" ELSE "bad"
 MCInit == \E n \in 1..MaxFrames : \E fs \in [1..n -> FrameD] : InitWith(fs)
 MCSpec == MCInit /\ [][Next]_vars
 
@@ -18,8 +22,8 @@ HasEof == \E x \in 1..Len(results) : results[x][1] = "eof"
 
 F == INSTANCE Framing WITH
         fr <- [i \in 1..Len(frames) |->
-                 [cls |-> IF frames[i].ok THEN "ok" ELSE "bad", canon |-> i,
-                  acls |-> IF frames[i].ok THEN "ok" ELSE "bad", acanon |-> i, end |-> EndOfFrame(frames, i)]],
+                 [cls |-> Cls(frames[i]), canon |-> i,
+                  acls |-> Cls(frames[i]), acanon |-> i, end |-> EndOfFrame(frames, i)]],
         total <- Len(stream), maxb <- MAXB, got <- off,
         k <- NumFrameResults,
         closed <- closed, eofSeen <- (pc = "eofd" \/ HasEof), rdErr <- FALSE,
